@@ -4,31 +4,183 @@ from vlib.common import Violation, Discard, Inconclusive
 from vlib.refops import OutOfDomain
 from vlib.pcheck import PCheck
 from vlib.hyp import Chooser
+from vlib.dlgen import NUMBER, SYMBOL
 
 PID = "C09"
 RULE = ("Generated recursive strata over random graphs: 1-3 patterns per program of linear / left-linear / non-linear transitive closure "
         "(1-2 recursive atoms per rule, several recursive rules per relation), bounded counters, mutual recursion (2 relations per "
         "stratum), same-generation (recursive atom between two non-recursive ones) and reachability with negated lower-stratum filters and "
-        "comparison constraints, stacked so that later strata recurse over earlier closures. Every recursive relation R gets a "
+        "comparison constraints, stacked so that later strata recurse over earlier closures; rules with >= 2 recursive atoms get (40%) a "
+        "user `.plan` for a random subset of their versions. Every recursive relation R gets a "
         "`debug_delta(R)` twin, which exposes through the ordinary output path the loop iteration in which each tuple was first found "
         "(R itself is output too). The reference evaluator computes the NAIVE stage of every tuple (Jacobi iteration of the stratum's "
         "immediate-consequence operator). Oracle: same tuples, and iteration(t) == naive_stage(t) for every tuple -- nothing naive "
         "evaluation derives is missed, nothing is found late or early, and the loop stops exactly at the least fixpoint (largest "
-        "recorded iteration == last non-empty naive stage). Not covered: the 'exactly one version considers each combination' clause "
-        "when a redundant re-derivation is filtered by the head-already-known check (results and stages stay right). Non-trivial = a "
-        "stratum needs >= 3 iterations and has a rule with >= 2 recursive atoms or 2 mutually recursive relations; distinct by hash "
-        "of the program.")
+        "recorded iteration == last non-empty naive stage). Second family (40%, 'once'): pattern programs and general dlgen programs "
+        "(mutual recursion incl. nullary relations, negation, aggregates) whose recursive rules get the extra constraint "
+        "`0 = @c09note(<rule>, <every variable bound by a positive atom>)` (wildcards named first, so one binding = one combination of "
+        "body tuples); the side-effecting functor logs each evaluation. Oracle: no (rule, binding) is logged twice -- a combination "
+        "considered by two versions of the rule or in two iterations is evaluated twice. Non-trivial = a stratum needs >= 3 iterations "
+        "and has a rule with >= 2 recursive atoms or 2 mutually recursive relations (stage family), or >= 6 logged combinations with a "
+        "rule of >= 2 same-stratum atoms (once family); distinct by hash of the program.")
+
+
+NOTE_DECL = ".functor c09note(r:number, a:number, b:number, c:number, d:number, e:number, f:number, g:number, h:number):number\n"
+
+
+def instrument(P):
+    """exactly-once clause: every qualifying recursive rule gets the constraint `0 = @c09note(<rule no>, <all variables bound by its
+    positive atoms>)`; the functor logs each evaluation. Wildcards of positive atoms are named first, so that one binding of the
+    logged variables is one combination of body tuples. Returns {rule no: number of same-stratum atoms}."""
+    from vlib.dlgen import Atom, Var, Const, Wild, Fn, Cmp, Or
+    group_of = {}
+    for g in P.groups:
+        for n in g:
+            group_of[n] = tuple(g)
+    done = {}
+    for no, r in enumerate(P.rules):
+        g = group_of.get(r.head.rel)
+        if g is None or getattr(r, "extra_heads", None) or any(isinstance(l, Or) for l in r.body):
+            continue
+        atoms = [l for l in r.body if isinstance(l, Atom)]
+        nrec = sum(1 for a in atoms if a.rel in g)
+        if nrec == 0:
+            continue
+        if any(not isinstance(x, (Var, Const, Wild)) for a in atoms for x in a.args):
+            continue
+        fresh = 0
+        vars_ = {}
+        ok = True
+        for a in atoms:
+            tys = P.rels[a.rel].types
+            for i, x in enumerate(a.args):
+                if isinstance(x, Wild):
+                    x = a.args[i] = Var("n%d_%d" % (no, fresh), tys[i])
+                    fresh += 1
+                if isinstance(x, Var):
+                    if tys[i] not in dlgen.BASE:
+                        ok = False
+                    vars_.setdefault(x.name, tys[i])
+        if not ok or len(vars_) > 8:
+            continue
+        args = [Const(no, NUMBER)]
+        for name, ty in sorted(vars_.items()):
+            v = Var(name, ty)
+            args.append(v if ty == NUMBER else Fn("ord", [v], NUMBER) if ty == SYMBOL else Fn("as", [v], NUMBER))
+        args += [Const(0, NUMBER)] * (9 - len(args))
+        r.body.append(Cmp("=", Const(0, NUMBER), Fn("@c09note", args, NUMBER), NUMBER))
+        r.order = list(r.order) + [len(r.body) - 1]
+        done[no] = nrec
+    return done
+
+
+def gen_once(ch):
+    if ch.bool(0.5):
+        P = dlgen.gen_recursive(ch, max_nodes=8, max_edges=14, npatterns=(1, 3), flag=True)
+        src = "patterns"
+    else:
+        P = dlgen.generate(ch, dlgen.Feat(records=False, max_groups=4))
+        src = "general"
+    inst = instrument(P)
+    text, facts = dlgen.to_souffle(P)
+    return {"mode": "once", "program": NOTE_DECL + text, "facts": facts, "instrumented": {str(k): v for k, v in inst.items()}, "source": src,
+            "j": ch.choice(["-j1", "-j1", "-j4"]), "nullary_in_recursion": any(len(P.rels[n].types) == 0 and P.rels[n].recursive for n in P.order)}
+
+
+def judge_once(case, st=None):
+    import os
+    from vlib.common import Scratch, souffle, write_files
+    import c12
+    if not case["instrumented"]:
+        if st is not None:
+            st.classes["once:no_recursive_rule_qualifies"] += 1
+        return
+    with Scratch("c09") as d:
+        files = {"p.dl": case["program"]}
+        for k, v in case["facts"].items():
+            files[os.path.join("facts", k)] = v
+        write_files(d, files)
+        for sub in ("facts", "out"):
+            os.makedirs(os.path.join(d, sub), exist_ok=True)
+        # The log only means "combination considered" if the functor is evaluated after every atom of the body has matched
+        # (including existence checks and the negated-delta filters of the version). In the emitted RAM the functor conjunct must
+        # therefore be the LAST conjunct of an inner filter (souffle's condition ordering puts user-defined functors last; the
+        # outermost filter of a query is different: the interpreter evaluates its relation-free conjuncts first). Checked per
+        # case on the RAM text; cases where it does not hold are discarded and counted, never judged.
+        ram = souffle(["--show=transformed-ram", "-F", "facts", "p.dl"], cwd=d, timeout=30)
+        if ram.rc != 0 or ram.timeout:
+            raise Discard("once:no_ram")
+        prev = ""
+        for ln in ram.out.split("\n"):
+            t = ln.strip()
+            if t.startswith("DEBUG"):
+                continue
+            k = t.find("@c09note(")
+            if k >= 0:
+                depth, j = 0, k + len("@c09note")
+                while j < len(t):
+                    depth += t[j] == "("
+                    depth -= t[j] == ")"
+                    j += 1
+                    if depth == 0:
+                        break
+                if t[j:].strip(")") != "" or prev == "QUERY":
+                    raise Discard("once:functor_not_last_conjunct_of_an_inner_filter")
+            if t:
+                prev = t
+        log = os.path.join(d, "note.log")
+        rr = souffle(["-F", "facts", "-D", "out", "-L" + c12.libdir(), "-lfunctors", case["j"], "p.dl"], cwd=d, timeout=60, env={"C09_LOG": log})
+        lines = open(log).read().split("\n") if os.path.exists(log) else []
+    if rr.timeout:
+        raise Inconclusive("timeout:once")
+    if rr.rc != 0:
+        if "Error" in rr.err and "rror: " in rr.err and rr.rc == 1:
+            raise Discard("once:rejected")   # the instrumented text is not accepted (e.g. type of a logged variable): not part of the property
+        raise Violation("instrumented program failed: rc=%s\n%s" % (rr.rc, rr.err[-1200:]), {"case": case})
+    seen = {}
+    for ln in lines:
+        if ln:
+            seen[ln] = seen.get(ln, 0) + 1
+    dup = sorted((ln, c) for ln, c in seen.items() if c > 1)
+    if dup:
+        raise Violation("a combination of body tuples was considered more than once by the versions / iterations of a recursive rule "
+                        "(rule number and variable binding, times evaluated): %r\n%s" % (dup[:6], case["program"]), {"case": case})
+    if st is not None:
+        multi = any(v >= 2 for v in case["instrumented"].values())
+        if len(seen) >= 6 and multi:
+            st.nontrivial.add(common.h(case["program"]))
+            st.classes["once:multi_recursive_atoms"] += 1
+            if case.get("nullary_in_recursion"):
+                st.classes["once:nullary_relation_in_recursion"] += 1
+            if len(st.samples) < 4 and not any(s.get("mode") == "once" for s in st.samples):
+                st.samples.append({"mode": "once", "program": case["program"], "logged_instantiations": len(seen)})
+        else:
+            st.classes["once:linear_or_small"] += 1
 
 
 def gen(ch):
+    if ch.bool(0.4):
+        return gen_once(ch)
     P = dlgen.gen_recursive(ch, max_nodes=10, max_edges=18, npatterns=(1, 3))
+    nplans = 0
+    for r in P.rules:
+        g = [x for x in P.groups if r.head.rel in x][0]
+        atoms = [r.body[i] for i in r.order if isinstance(r.body[i], dlgen.Atom)]
+        nver = sum(1 for a in atoms if a.rel in g)
+        if nver >= 2 and ch.bool(0.4):
+            # a user plan for SOME versions of the rule (the others keep the default order): stages must not change
+            vs = [v for v in range(nver) if ch.bool(0.5)] or [ch.int(0, nver - 1)]
+            r.plan = ".plan " + ", ".join("%d:(%s)" % (v, ",".join(map(str, ch.shuffle(list(range(1, len(atoms) + 1)))))) for v in vs)
+            nplans += 1
     text, facts = dlgen.to_souffle(P)
-    rec = [n for n in P.order if P.rels[n].recursive]
+    rec = [n for n in P.order if P.rels[n].recursive and P.rels[n].types]   # (no debug_delta twin for nullary relations)
     extra = "".join(".decl %s_d = debug_delta(%s)\n.output %s_d\n" % (n, n, n) for n in rec)
-    return {"program": text + extra, "facts": facts, "rec": rec, "_P": P}
+    return {"program": text + extra, "facts": facts, "rec": rec, "nplans": nplans, "_P": P}
 
 
 def judge(case, st=None):
+    if case.get("mode") == "once":
+        return judge_once(case, st)
     P = case.get("_P") or gen(Chooser(trace=case["trace"]))["_P"]
     pub = {k: v for k, v in case.items() if k != "_P"}
     try:
@@ -71,6 +223,8 @@ def judge(case, st=None):
         if deep and multi:
             st.nontrivial.add(common.h(case["program"]))
             st.classes["deep_and_multi_recursive_atoms"] += 1
+            if case.get("nplans"):
+                st.classes["with_partial_user_plans"] += 1
             st.sample({"program": case["program"], "max_stage": max(ev.stage.values())})
         elif deep:
             st.classes["deep_linear_only"] += 1
